@@ -15,6 +15,8 @@ CLAIMS = {
          "the ghost table model (entries of a file, block boundaries, index/filter agreement: lmOK) is a precondition here; that flush, compaction and recovery establish it is C09/C01/C02's business and not yet proved; fetch (file read + decode) is a trusted contract backed by C11; library contracts for container/list, strings, strconv, hash.Hash32; sequential semantics under levelManager.mu", "4-C10"),
  "C12": ("Proof of the lock discipline (after one fix: commit): every field of DB, memtable, levelManager, oracle and WAL carries a concurrency classification (guarded_by(lock) / immutable / atomic / lock), and every load and store of such a field in every function of the engine and wal packages - contracted or not - is an obligation: the guarding lock of that object is in the activation's ghost lockset in the right mode (read for loads, write for stores), or the object was allocated by this activation and is not shared yet. Also: no lock is taken twice by one activation, every Unlock matches a held lock, locks are balanced at exit, callees documented as 'call with lock' are called with it. An unclassified field of a shared type fails the run.",
          "decided: guarded-field discipline + lock balance, for all functions of package originium and wal, unbounded (no schedule executed). NOT decided by this check: panic freedom of the whole engine (covered per function in the other properties' obligations only where a function is under contract), pooled-buffer ownership (C11), and that the discipline implies data-race freedom (assumed: Go memory model DRF-SC; sync primitives correct). skiplist/filter/tableHandle/Txn objects are confined to their owner (reached only through a guarded field or by one goroutine). Uncontracted callees are abstracted by a static write-set analysis (dynamic calls assumed to store only through their arguments).", "4-C12"),
+ "C11": ("Partial proof, parts named: (1) ownership, for all inputs: Data/Index/Footer/Meta.Encode and table.Build return a fresh allocation of the call (arrid(result) >= alloc at entry), never a slice of a pooled buffer, and leave every buffer that was in the pool at entry with unchanged content (ghost BufOwned/BufC/BufStore; one fix: commit made this true). (2) Footer and Meta: Encode produces exactly the little-endian token string of the fields and Decode of exactly that string returns the fields (round trip as a lemma over the two contracts), wrong magic and short input give an error and leave the receiver unchanged. (3) the 16-bit length fields: every narrowing conversion in Data.Encode and Index.Encode is an obligation (value fits); those for key/value/suffix lengths >= 65536 fail and are listed known findings (D11, demonstrated against the real code in findings/table/zz_d11_test.go). (4) ErrorWriter.Write / ErrorReader.Read glue and utils.LCP (longest common prefix, for all strings).",
+         "NOT yet under contract (no obligation generated, so a change there is not detected by this check): byte content of data and index blocks versus the entry list (Data/Index Encode-Decode round trip), Data/Index.Decode, wal.Write/Read and the thrift record codec, s2 compression (utils.Compress/Decompress trusted as inverse functions). 'whatever other goroutines encode concurrently' is decided as ownership: the result is unreachable from the pool, so no other activation can write it (sync.Pool trusted).", "4-C11"),
  "C07": ("Proof at the level of fingerprints: hasConflict returns true exactly when a remembered committed transaction with ts > readTs wrote a read fingerprint (nested-loop invariants); cleanUpCommittedTxns keeps exactly the entries above the new mark (in-place filter with aliasing slices); newCommitTs refuses exactly when the ghost commit history Hist contains such a transaction (oracle invariant orcInv/histInv: nothing above the clean-up mark is forgotten, the mark never exceeds an open reader); Get records a fingerprint only for store reads; Commit returns ErrConflictTxn iff that holds and then changes neither View nor Hist; read-only / write-only transactions cannot conflict (empty readsFp).",
          "sequential semantics of each critical section (oracle lock held); watermark client contracts trusted (justified by C13); utils.Hash as an uninterpreted deterministic function: the key-level statement equals the fingerprint-level one when no two keys in play collide; DB.search/rawset used through their contracts; fewer than 2^63 commits", "4-C07"),
  "C08": ("Proof: modify/Set/Delete return the documented error in exactly the documented cases and then change nothing; otherwise they only touch the private buffer (frame conditions proved: assigns map pendingWrites, map writesFp). Discard only sets flags and finishes the read mark. Commit on a discarded transaction returns ErrDiscardedTxn, on conflict ErrConflictTxn, in both cases with View and Hist unchanged. View/Update return ErrDBClosed when closed, Update returns the closure's error without calling Commit and with View unchanged.",
